@@ -640,6 +640,31 @@ func c16Rounds(c *runCtx, r *rng, overlap bool) {
 		if r.chance(2, 3) {
 			pending = g.grow(r, r.rangeInt(1, 8))
 		}
+		// directed, in every session: a comment that was imported in an earlier round is edited on the
+		// tracker (the edit is imported by the next round), and the round after that sees further activity
+		// on the same issue (so the issue, with its imported edit, is listed once more)
+		g.mu.Lock()
+		if len(g.issues) > 0 {
+			is := g.issues[0]
+			t := g.tick()
+			switch round {
+			case 0:
+				for i := range is.Notes {
+					if !is.Notes[i].System {
+						is.Notes[i].Body = "edited after import: " + randHexId(r, 4)
+						is.Notes[i].Updated = t
+						is.Updated = t
+						pending++
+						break
+					}
+				}
+			case 1:
+				is.Notes = append(is.Notes, simNote{ID: g.id("note"), Body: "activity after an imported edit " + randHexId(r, 4), Author: is.Author, Created: t, Updated: t})
+				is.Updated = t
+				pending++
+			}
+		}
+		g.mu.Unlock()
 	}
 	c.emit(map[string]any{"cmd": "rounds", "log": log, "overlap": overlap}, map[string]any{"ok": true})
 	env.rc.Close()
